@@ -108,6 +108,10 @@ def rule_sb_upd(ctx, rep):
     else:
         rep.must_pass("C02.sb-upd", "qsbr.futex≺waiting", f, ann, wt, lambda i: mm.is_compiler(i, f.mod), what=">=compiler barrier (wmb) between gp.futex=-1 and the waiting flags")
         rep.must_pass("C02.sb-upd", "qsbr.waiting≺FULL≺scan", f, wt, rd, mm.is_full, what="FULL between setting reader->waiting and reading reader words (store→load)")
+        # value agreement with the reader side, which wakes the grace period exactly when it reads waiting != 0
+        zero = [s_ for s_ in wt if ir.const_of(f, s_.args[0]) == 0]
+        rep.check(not zero, "C02.sb-upd", "qsbr.waiting-value", "the announcement stores a non-zero waiting flag", "the updater announces its sleep by storing waiting = 0: a reader going quiescent "
+                  "reads `nobody waits`, does not wake gp.futex, and the grace period sleeps forever", [z.where() for z in zero[:1]])
         gd = set(a for d_ in ann for a in dom_atoms(f, d_))
         for w_ in waits:
             common = [a for a in dom_atoms(f, w_) if a in gd and a[0] in ("uge", "ugt", "ult", "ule", "sge", "sgt", "slt", "sle")]
@@ -170,6 +174,16 @@ def rule_sb_rd(ctx, rep):
             rep.ok("C02.sb-rd", "qsbr.%s.ctr≺FULL≺waiting" % nm, "reader-word store is seq_cst", [s.where() for s in sts])
         rep.must_pass("C02.sb-rd", "qsbr.%s.ctr≺waiting-test" % nm, f, sts, None, lambda i: i in wl, to_exit=True, what="every state change reaches the waiting test")
         rep.must_pass("C02.sb-rd", "qsbr.%s.waiting=0≺FULL≺futex" % nm, f, ws, fut, mm.is_full, what="FULL between clearing waiting and testing gp.futex")
+        # polarity: the futex test (wake-up) is entered along `waiting != 0`
+        we = pat.branch_edges_on(f, lambda a: a[0] in ("eq", "ne") and a[2] == ("c", 0) and pat.is_load_expr(a[1], "urcu_qsbr_reader.waiting"))
+        if we:
+            rep.must_take_edge("C02.sb-rd", "qsbr.%s.waiting⇒wake" % nm, f, sts, fut, [(t.blk.id, s_) for t, s_, a in we if a[0] == "ne"], include_start=False,
+                               what="the grace period's futex is tested (and woken) when the waiting flag is set")
+            hit, _ = f.reach(sts, None, avoid=lambda i: i in fut, edge_ok=pat.block_edge_filter([(t.blk.id, s_) for t, s_, a in we if a[0] == "eq"]), stop_at_exit=True)
+            rep.check(hit is None, "C02.sb-rd", "qsbr.%s.waiting⇒wake.every-path" % nm, "with waiting set every path from the state change reaches the futex test",
+                      "%s can return without testing gp.futex although waiting was set" % nm, [sts[0].where()])
+        else:
+            rep.unk("C02.sb-rd", "qsbr.%s.waiting⇒wake" % nm, "the waiting flag does not steer a branch this rule recognises")
 
 
 def rule_wake(ctx, rep):
